@@ -270,6 +270,71 @@ def pieces_tail(rng, rnd, npieces, count):
     return b''.join(rng.choice(ps) for _ in range(count))
 
 
+# ------------------------------------------------------------------ wave 5: the trailer (0 tag + 8 stored hash bytes)
+
+TRAILER_PATTERNS = (
+    # name, quota, predicate on the 64-bit check hash (stored little-endian: the LAST byte of the stream is h >> 56)
+    ('lastFF', 4, lambda h: h >> 56 == 0xff),
+    ('last00', 3, lambda h: h >> 56 == 0x00),
+    ('last01', 1, lambda h: h >> 56 == 0x01),
+    ('lastFE', 1, lambda h: h >> 56 == 0xfe),
+    ('lastFFFF', 1, lambda h: h >> 48 == 0xffff),
+    ('last0000', 1, lambda h: h >> 48 == 0x0000),
+    ('first00', 2, lambda h: h & 0xff == 0x00),      # the byte after the 0 tag is a second 0: tag look-alike
+    ('firstFF', 2, lambda h: h & 0xff == 0xff),
+    ('midFF', 1, lambda h: any((h >> 8 * i) & 0xffff == 0xffff for i in range(1, 6))),
+)
+
+
+def special_trailer_inputs(rng, P, max_tries=260000):
+    """encoder inputs (short; single buffer) whose stored check hash has special bytes at its ends: a decoder that
+    mistakes a MISSING byte for 0xff / 0x00 (EOF read as a byte), or a present byte for the end, is wrong only on
+    such streams (about 1 input in 256, 1 in 65536 for two bytes).  The search uses the Python copy of the hash and is
+    derived from rng alone (it replays); what the stream really ends in is read off the encoder's output by the
+    check.  -> list of (pattern name, bytes)"""
+    need = {n: q for n, q, _ in TRAILER_PATTERNS}
+    out = []
+    seen = set()
+    alphas = [None, b'ab', b'abc', bytes(range(97, 123)), b'\x00\xff']
+    tries = 0
+    while any(need.values()) and tries < max_tries:
+        tries += 1
+        # once only the two-byte patterns are missing, candidates are as short as possible (cheap hash)
+        short = tries > 4000
+        d = rand_bytes(rng, rng.randrange(1, 9) if short else rng.choice([0, 1, 2, 3, 5, 8, 9, 12, 17, 30, 66]),
+                       None if short else rng.choice(alphas))
+        if len(d) == 0 or d in seen:       # (the empty input, hash = the seed, is always swept by the check)
+            continue
+        seen.add(d)
+        h = chain_hash(d, P)
+        for n, _, pred in TRAILER_PATTERNS:
+            if need[n] and pred(h):
+                need[n] -= 1
+                out.append((n, d))
+                break
+    return out
+
+
+def trailer_mutants(s):
+    """the whole trailer family of one encoder output: EVERY proper prefix, each of the 9 trailer bytes (0 tag, 8 hash
+    bytes) replaced by 0x00 / 0xff / +1 / -1, one or two (adjacent) trailer bytes dropped from the middle, the last
+    body byte dropped, extensions by 0xff / 0x00 / the last byte / a second trailer"""
+    n = len(s)
+    for k in range(n):
+        yield ('trunc', s[:k])
+    for i in range(max(0, n - 9), n):
+        for v in sorted(set([0x00, 0xff, (s[i] + 1) & 255, (s[i] - 1) & 255])):
+            if v != s[i]:
+                yield ('sub', s[:i] + bytes([v]) + s[i + 1:])
+        yield ('del', s[:i] + s[i + 1:])
+        if i + 1 < n:
+            yield ('del', s[:i] + s[i + 2:])
+    if n > 10:
+        yield ('del', s[:n - 10] + s[n - 9:])
+    for t in (b'\xff', b'\x00', s[-1:], b'\xff\xff', b'\xff' * 8, s[-9:]):
+        yield ('ext', s + t)
+
+
 # ------------------------------------------------------------------ decoder streams
 
 def byte_mutants(s, rng=None, max_sub_per_pos=None):
